@@ -650,7 +650,7 @@ protected:
 		f.clear();
 		if constexpr (std::is_integral_v<Arith> && std::is_signed_v<Arith>) {
 			if (0 == v) return f;
-			if constexpr (arithmetic == Saturate) {
+			if constexpr (arithmetic == Saturate && (nbits - rbits) <= 8 * sizeof(Arith)) { // a wider integer part holds every value of Arith
 				constexpr fixpnt maxpos(SpecificValue::maxpos), maxneg(SpecificValue::maxneg);
 				// check if we are in the representable range: static_cast<Arith>(maxpos) is the integer part of maxpos, which is representable
 				if (v > static_cast<Arith>(maxpos)) { return maxpos; }
